@@ -1,3 +1,7 @@
 #!/bin/sh
-# run the repository's pinned test suite (guard off)
-cd /repo && /venv/bin/python -m pytest -q -p no:cacheprovider --timeout=900 -x -n 8 2>&1 | tail -3
+# run the repository's pinned test suite exactly like the baseline (sequential: the session-scoped rng fixture makes
+# test_roots depend on test order, so xdist would randomise it); exit status of pytest
+cd /repo && /venv/bin/python -m pytest -q -p no:cacheprovider --timeout=900 > /tmp/repotests.log 2>&1
+rc=$?
+tail -2 /tmp/repotests.log
+exit $rc
